@@ -1,12 +1,111 @@
 (* C18 property theorems. This file contains only statements closed by
    [exact lemma] and Print Assumptions. *)
-From V Require Import Common.Base C18.Pieces C18.PiecesProofs.
+From V Require Import Common.Base C18.Pieces C18.PiecesProofs C18.Hash C18.HashProofs C18.XXHash C18.NameProofs.
 
-(* breakOutputIntoPieces always terminates with a piece list (the fuel the
-   model uses is enough for every output), and re-inserting the unique keys
-   into the pieces gives back exactly the intermediate output: nothing is
-   lost or invented by the split. *)
+(* breakOutputIntoPieces terminates on every output (the model's fuel always
+   suffices) and re-inserting the unique keys into the pieces gives back
+   exactly the intermediate output: the split loses and invents nothing. *)
 Theorem pieces_lossless : forall prefix nf nc out,
   exists ps, break_output prefix nf nc out = Some ps /\ join_with_keys prefix ps = out.
 Proof. exact break_total_lossless. Qed.
 Print Assumptions pieces_lossless.
+
+(* After substitution no occurrence of the unique-key prefix lies inside a data
+   piece other than the last: every key the scan reached has been replaced by a
+   path (an occurrence can only overlap bytes of a substituted path, or lie in
+   the last piece - see last_piece_only_malformed). *)
+Theorem no_placeholder_survives : forall prefix nf nc out ps pathOf,
+  prefix <> [] -> break_output prefix nf nc out = Some ps ->
+  forall pre p rest, ps = pre ++ p :: rest -> rest <> [] ->
+  forall k, (length (substitute pathOf pre) <= k)%nat ->
+    (k + length prefix <= length (substitute pathOf pre) + length (pdata p))%nat ->
+    is_prefix prefix (skipn k (substitute pathOf ps)) = false.
+Proof. exact no_placeholder_survives_all. Qed.
+Print Assumptions no_placeholder_survives.
+
+(* The last piece is free of the prefix unless the text itself contained the
+   prefix followed by something that is not a valid key (wrong letter, a
+   non-digit, index out of range, truncated): then the scan stops there and
+   everything after it - including later valid keys - is left as it is. *)
+Theorem last_piece_only_malformed : forall prefix nf nc out ps,
+  break_output prefix nf nc out = Some ps ->
+  exists d, last ps (mkPiece [] 0 0) = mkPiece d 0 0 /\
+    (occurs prefix d = false \/
+     exists b, index_of prefix d = Some b /\ parse_key nf nc (skipn (b + length prefix) d) = None).
+Proof. exact last_piece_all. Qed.
+Print Assumptions last_piece_only_malformed.
+
+(* Every reference piece denotes a file (asset) or chunk index of this build;
+   its data is free of the prefix; the last piece is not a reference. *)
+Theorem references_resolve : forall prefix nf nc out ps,
+  prefix <> [] -> break_output prefix nf nc out = Some ps ->
+  Forall (fun p => occurs prefix (pdata p) = false /\ is_ref (pkind p) = true /\
+                   0 <= pidx p /\ (pkind p = 1 -> pidx p < nf) /\ (pkind p = 2 -> pidx p < nc)) (removelast ps)
+  /\ pkind (last ps (mkPiece [] 0 0)) = 0.
+Proof. exact references_resolve_all. Qed.
+Print Assumptions references_resolve.
+
+(* appendIsolatedHashesForImportedChunks from a fresh visited array terminates
+   on every import graph (cycles, self loops, duplicates) and writes the item
+   of each chunk reachable from the root exactly once, and of no other chunk. *)
+Theorem dfs_visits_reachable_once : forall chunks root,
+  wf_graph chunks -> (root < length chunks)%nat -> Z.of_nat (length chunks) < 4294967296 ->
+  exists o, final_order chunks root = Some o /\ NoDup o /\ (forall x, In x o <-> reach chunks root x).
+Proof. exact dfs_visits_reachable_once_all. Qed.
+Print Assumptions dfs_visits_reachable_once.
+
+(* hashWriteLengthPrefixed: the stream written for a list of items (each
+   shorter than 2^32) determines the list - boundaries matter. *)
+Theorem length_prefix_unambiguous : forall l1 l2, Forall fits32 l1 -> Forall fits32 l2 ->
+  concat (map lenpref l1) = concat (map lenpref l2) -> l1 = l2.
+Proof. exact lenpref_concat_inj. Qed.
+Print Assumptions length_prefix_unambiguous.
+
+(* Two builds with the same import graph: if the isolated hash input of a chunk
+   x reachable from the root differs (and H does not collide on these two
+   inputs, and outputs of H have one length), the root's final hash input differs. *)
+Theorem final_name_changes_with_dependency : forall (H : bytes -> bytes) public ar1 ar2 cs1 cs2 root x,
+  map c_imports cs1 = map c_imports cs2 ->
+  wf_graph cs1 -> (root < length cs1)%nat -> Z.of_nat (length cs1) < 4294967296 ->
+  (forall a b, length (H a) = length (H b)) ->
+  (forall i c1 c2, nth_error cs1 i = Some c1 -> nth_error cs2 i = Some c2 ->
+     length (assets_stream ar1 c1) = length (assets_stream ar2 c2)) ->
+  reach cs1 root x ->
+  (forall c1 c2, nth_error cs1 x = Some c1 -> nth_error cs2 x = Some c2 ->
+     assets_stream ar1 c1 = assets_stream ar2 c2 /\
+     isolated_stream public c1 <> isolated_stream public c2 /\
+     (H (isolated_stream public c1) = H (isolated_stream public c2) ->
+      isolated_stream public c1 = isolated_stream public c2)) ->
+  exists s1 s2, final_stream H public ar1 cs1 root = Some s1 /\
+                final_stream H public ar2 cs2 root = Some s2 /\ s1 <> s2.
+Proof. exact final_stream_changes. Qed.
+Print Assumptions final_name_changes_with_dependency.
+
+(* same_name_same_bytes (equal final name => equal final bytes) is FALSE of the
+   faithful model: with H := xxhash, two builds give chunk 0 the same name and
+   different bytes (the two dynamic imports swapped; DESIGN section 7-E). *)
+Theorem same_name_same_bytes_refuted :
+  exists cs1 cs2 i nm b1 b2,
+    name_of xxh64 cs1 i = Some nm /\ name_of xxh64 cs2 i = Some nm /\
+    bytes_of xxh64 cs1 i = Some b1 /\ bytes_of xxh64 cs2 i = Some b2 /\ b1 <> b2.
+Proof. exact same_name_same_bytes_refuted_xx. Qed.
+Print Assumptions same_name_same_bytes_refuted.
+
+(* ... and not because of xxhash: for EVERY hash function the two builds hash
+   the very same stream for that chunk. *)
+Theorem same_name_same_bytes_refuted_any_hash : forall H : bytes -> bytes,
+  final_stream H [] (fun _ => []) (wit_build 1 2) 0 = final_stream H [] (fun _ => []) (wit_build 2 1) 0
+  /\ final_stream H [] (fun _ => []) (wit_build 1 2) 0 <> None.
+Proof. exact same_stream_different_refs. Qed.
+Print Assumptions same_name_same_bytes_refuted_any_hash.
+
+(* What does hold: equal hashed piece data gives equal final bytes PROVIDED the
+   path substituted at each position is the same in both builds; the hash
+   covers the data and the set of imported chunks, not the positions. *)
+Theorem same_name_same_bytes_partial : forall pathOf1 pathOf2 ps1 ps2,
+  Forall (fun p => fits32 (pdata p)) ps1 -> Forall (fun p => fits32 (pdata p)) ps2 ->
+  concat (map (fun p => lenpref (pdata p)) ps1) = concat (map (fun p => lenpref (pdata p)) ps2) ->
+  map (ref_path pathOf1) ps1 = map (ref_path pathOf2) ps2 ->
+  substitute pathOf1 ps1 = substitute pathOf2 ps2.
+Proof. exact same_bytes_partial. Qed.
+Print Assumptions same_name_same_bytes_partial.
